@@ -119,30 +119,42 @@ def c11b(ctx, tu):
             n += 1
             adv = cfg.find_events(fn, lambda e: e["e"] == "call" and qe(e) == "std::advance")
             g = None
+            short_edge = 0          # the edge on which the range is SHORTER than the element list
             for bid in fn.blocks:
                 c = cfg.cond_of(fn, bid)
-                if c is not None and isinstance(c, list) and c[:2] == ["b", "<"]:
+                if c is None:
+                    continue
+                t, pol = cond_shape(c)
+                if isinstance(t, list) and t[:1] == ["b"] and t[1] in ("<", ">", "<=", ">="):
                     g = bid
+                    gt = t
+                    gpol = pol
             ok = len(adv) == 1 and g is not None
             why = "suffix match needs exactly one advance to the tail, guarded by a size test"
             if ok:
-                c = cfg.cond_of(fn, g)
                 decls = {e["var"]: e for b, e in fn.events() if e["e"] == "decl"}
                 def origin(t):
                     if t[:1] == ["var"] and t[1] in decls:
                         return str(decls[t[1]].get("init"))
                     return str(t)
-                lhs, rhs = origin(c[2]), origin(c[3])
-                ok = "std::distance" in lhs and ("sizeof" in rhs or "::size" in rhs or "'int'" in rhs)
-                why = "the guard must compare the range's length (std::distance) with the number of elements"
+                lhs, rhs = origin(gt[2]), origin(gt[3])
+                op = gt[1]
+                if "std::distance" in rhs:      # written the other way round:  n > size
+                    lhs, rhs = rhs, lhs
+                    op = {"<": ">", ">": "<", "<=": ">=", ">=": "<="}[op]
+                ok = "std::distance" in lhs and ("sizeof" in rhs or "::size" in rhs or "'int'" in rhs) and op in ("<", ">=")
+                why = "the guard must compare the range's length (std::distance) with the number of elements (size < n)"
+                # size < n true  -> short ; size >= n true -> long enough
+                short_when = (op == "<")
+                short_edge = (0 if gpol else 1) if short_when else (1 if gpol else 0)
                 if ok:
-                    ok = cfg.edge_dominates(fn, (g, 1), adv[0][0])
+                    ok = cfg.edge_dominates(fn, (g, 1 - short_edge), adv[0][0])
                     why = "advance to the tail must only happen when the range is at least as long as the element list"
                 if ok:
                     # short range: false
                     rets = [(b["id"], e.get("x")) for b, e in fn.events() if e["e"] == "return"]
                     fb = [b for b, x in rets if x == ["bool", False]]
-                    ok = len(fb) == 1 and cfg.edge_dominates(fn, (g, 0), fb[0])
+                    ok = len(fb) == 1 and cfg.edge_dominates(fn, (g, short_edge), fb[0])
                     why = "a range shorter than the element list must not match"
                 if ok:
                     a = adv[0][2]["args"]
